@@ -13,6 +13,7 @@
 #include <string.h>
 #include <unistd.h>
 #include <pthread.h>
+#include <signal.h>
 #include <poll.h>
 #include <sched.h>
 #include <stdatomic.h>
@@ -61,11 +62,16 @@ static void do_apply(int kind, size_t n, int depth){ struct app a; memset(&a,0,s
   free((void*)a.cnt); }
 static int ncpu; static int rounds;
 static size_t pick_n(void){ size_t c[]={0,1,2,(size_t)ncpu-1,(size_t)ncpu,(size_t)ncpu+1,3,7,100,1000,20000}; return c[rnd()%11]; }
+// signals with a handler (no SA_RESTART) reach the threads that call dispatch_apply while they wait for the helpers: an
+// interrupted wait is not a completed one
+static void on_usr1(int sig){ (void)sig; }
+static pthread_t cl_th[4]; static int cl_n; static atomic_int ping_stop, cl_release; static atomic_long pings;
+static void *pinger(void *a){ (void)a; while(!atomic_load(&ping_stop)){ for(int i=0;i<cl_n;i++) pthread_kill(cl_th[i],SIGUSR1); atomic_fetch_add(&pings,1); usleep(300); } return 0; }
 static void *client(void *x){ (void)x; for(int r=0;r<rounds && !viol;r++){ int kind=(int)(rnd()%7); do_apply(kind,pick_n(),0);
     if(rnd()%5==0){ dispatch_barrier_async(QC,^{ atomic_store(&bar_c,1); for(volatile int k=0;k<3000;k++){} atomic_store(&bar_c,0); }); }
     // barriers on the chained queues too: width that an apply failed to give back on an upper level shows as a barrier (and
     // everything behind it) that never runs
-    if(rnd()%4==0){ atomic_fetch_add(&chain_barriers,1); dispatch_barrier_async(rnd()%2?QSS:QCC,^{ atomic_fetch_add(&chain_barriers_ran,1); }); } } atomic_fetch_add(&clients_done,1); return NULL; }
+    if(rnd()%4==0){ atomic_fetch_add(&chain_barriers,1); dispatch_barrier_async(rnd()%2?QSS:QCC,^{ atomic_fetch_add(&chain_barriers_ran,1); }); } } atomic_fetch_add(&clients_done,1); while(!atomic_load(&cl_release)) usleep(200);   /* stay alive while the pinger may still signal this thread */ return NULL; }
 int main(int argc,char**argv){ seed=argc>1?strtoull(argv[1],0,0):1; rounds=argc>2?atoi(argv[2]):40; ncpu=(int)sysconf(_SC_NPROCESSORS_ONLN);
   evs=calloc(MAXEV,sizeof *evs);
   QS=dispatch_queue_create("s",NULL); QC=dispatch_queue_create("c",DISPATCH_QUEUE_CONCURRENT);
@@ -74,14 +80,17 @@ int main(int argc,char**argv){ seed=argc>1?strtoull(argv[1],0,0):1; rounds=argc>
   // a concurrent queue whose target is the thread-bound main queue, which the main thread drains the way a run loop does
   QCM=dispatch_queue_create_with_target("cm",DISPATCH_QUEUE_CONCURRENT,dispatch_get_main_queue()); int mh=_dispatch_get_main_queue_handle_4CF();
   _dispatch_verif_yield_cb=ycb; _dispatch_verif_atomic_cb=cb;
-  pthread_t th[4]; int nt=3; for(int i=0;i<nt;i++) pthread_create(&th[i],0,client,0);
+  struct sigaction sa; memset(&sa,0,sizeof sa); sa.sa_handler=on_usr1; sigaction(SIGUSR1,&sa,0);
+  pthread_t th[4]; int nt=3; for(int i=0;i<nt;i++){ pthread_create(&th[i],0,client,0); cl_th[i]=th[i]; } cl_n=nt;
+  pthread_t pg; pthread_create(&pg,0,pinger,0);
   while(atomic_load(&clients_done)<nt){ struct pollfd pf={mh,POLLIN,0}; poll(&pf,1,2); _dispatch_main_queue_callback_4CF(NULL); }
+  atomic_store(&ping_stop,1); pthread_join(pg,0); atomic_store(&cl_release,1);
   for(int i=0;i<nt;i++) pthread_join(th[i],0);
   dispatch_barrier_sync(QC,^{});
   for(int w=0; w<10000 && atomic_load(&chain_barriers_ran)<atomic_load(&chain_barriers); w++) usleep(1000);
   if(!viol && atomic_load(&chain_barriers_ran)<atomic_load(&chain_barriers)) fail("barrier items submitted to a concurrent queue of a chain after dispatch_apply calls on it never ran (10 s): ran/submitted",atomic_load(&chain_barriers_ran),atomic_load(&chain_barriers),0);
   _dispatch_verif_atomic_cb=0;
-  if(viol) printf("ORACLE VIOL seed=%llu %s\n",(unsigned long long)seed,vmsg); else printf("ORACLE ok items=%ld events=%lu\n",atomic_load(&invocations),atomic_load(&nev));
+  if(viol) printf("ORACLE VIOL seed=%llu %s\n",(unsigned long long)seed,vmsg); else printf("ORACLE ok items=%ld events=%lu signal_rounds=%ld\n",atomic_load(&invocations),atomic_load(&nev),atomic_load(&pings));
   unsigned long n=atomic_load(&nev); if(n>MAXEV) n=MAXEV;
   for(unsigned long i=0;i<n;i++){ ev_t *e=&evs[i]; printf("E %lu %d %lx %u %d %lu %lu\n",e->seq,e->tid,(unsigned long)e->addr,e->size,e->op,(unsigned long)e->o,(unsigned long)e->n); }
   return viol?1:0; }
